@@ -18,7 +18,8 @@ CONSTANTS MaxMsgs,     \* turns per conversation
           Roles,       \* "alt" (user, assistant, user, ...) | "any"
           Bases,       \* base configurations for AddMsg / Deviate: subset of {"default", "rich"}
           MaxDev,      \* configuration fields changed (0 = conversation family only)
-          OnlyBases    \* TRUE: build only the base conversations (configuration family)
+          OnlyBases,   \* TRUE: build only the base conversations (configuration family)
+          DevAnywhere  \* TRUE: configuration changes and turns interleave freely (random walks)
 
 VARIABLES ndev, lastd
 gvars == <<vars, ndev, lastd>>
@@ -36,7 +37,7 @@ GInit == /\ req \in {[msgs |-> <<>>, cfg |-> BaseCfg(b)] : b \in Bases}
          /\ res = NoRes /\ hres = NoH /\ act = "Gen" /\ dev = {}
          /\ ndev = 0 /\ lastd = 0
 
-AddMsg == /\ ndev = 0 /\ Len(req.msgs) < MaxMsgs
+AddMsg == /\ (ndev = 0 \/ DevAnywhere) /\ Len(req.msgs) < MaxMsgs
           /\ \E role \in RolesAt(Len(req.msgs) + 1) : \E m \in GMsgs(role) :
                 /\ req' = [req EXCEPT !.msgs = Append(@, m)]
                 /\ OnlyBases => \E bc \in {BaseConv1, BaseConv2} :
@@ -45,7 +46,7 @@ AddMsg == /\ ndev = 0 /\ Len(req.msgs) < MaxMsgs
           /\ UNCHANGED <<res, hres, act, dev, ndev, lastd>>
 
 Deviate == /\ ndev < MaxDev
-           /\ req.msgs \in {<<>>, BaseConv1, BaseConv2}
+           /\ (DevAnywhere \/ req.msgs \in {<<>>, BaseConv1, BaseConv2})
            /\ \E d \in (lastd + 1)..Len(DimNames) : \E v \in DimVals(DimNames[d]) \ {req.cfg[DimNames[d]]} :
                  /\ req' = [req EXCEPT !.cfg[DimNames[d]] = v]
                  /\ lastd' = d
